@@ -105,6 +105,16 @@ func flatten(v Val) []string {
 			needElemPtr = true
 			return []string{app("elemptr", v.Ref, v.Idx)}
 		}
+		if v.Root == rootObj && len(v.Path) > 0 {
+			// a pointer to a field of an object kept in memory (&c.pool): an opaque non-nil reference
+			// (what is read through it later is unconstrained)
+			needElemPtr = true
+			code := 0
+			for _, f := range v.Path {
+				code = code*64 + f + 1
+			}
+			return []string{app("elemptr", v.Ref, fmt.Sprint(-code))}
+		}
 		panic(unsupported("flatten of interior pointer"))
 	case nil:
 		return nil
